@@ -511,6 +511,11 @@ class GState:
         if self._is_coolant_active:
             raise CoolantStateError(message)
 
+    def _validate_axes(self, axes: Point) -> None:
+        """Validate a position is within the user defined bounds."""
+
+        self._user_bounds.validate("axes", axes)
+
     def _validate_tool_number(self, number: int) -> None:
         """Validate tool number is within acceptable range."""
 
